@@ -1057,6 +1057,11 @@ def run_tracker_reentrant(ordered, ttl, mode, ops):
     return ' ; '.join(out)
 
 
+class _Gone:
+    def handle(self, track):
+        pass
+
+
 def run_tracker(ordered, ttl, ops):
     # an independent tracker with its own observers, busy while the observed one runs: its tracks and
     # events are its own
@@ -1066,7 +1071,16 @@ def run_tracker(ordered, ttl, ops):
     decoy = TR.AISTracker(ttl_in_seconds=None, stream_is_ordered=False)
     for ev in TR.AISTrackEvent:
         decoy.register_callback(ev, lambda t: None)
-    tr = TR.AISTracker(ttl_in_seconds=ttl, stream_is_ordered=ordered)
+    # (an unordered tracker is what the constructor builds by default: built that way every other time)
+    if not ordered and len(ops) % 2:
+        tr = TR.AISTracker(ttl_in_seconds=ttl)
+    else:
+        tr = TR.AISTracker(ttl_in_seconds=ttl, stream_is_ordered=ordered)
+    # a subscriber that registered a bound method and has since gone out of scope, in front of the observers
+    gone = _Gone()
+    for ev in TR.AISTrackEvent:
+        tr.register_callback(ev, gone.handle)
+    del gone
     evs = []
     tr.register_callback(TR.AISTrackEvent.CREATED, lambda t: evs.append(('C', t.mmsi)))
     tr.register_callback(TR.AISTrackEvent.UPDATED, lambda t: evs.append(('U', t.mmsi)))
